@@ -10,7 +10,7 @@ export CARGO_NET_OFFLINE=true CARGO_TARGET_DIR=$WT/target
 cd $WT || exit 2
 git checkout -q -- . && git clean -fdq -e out -e target
 res() { echo "$1"; }
-cp $OUT/demo.rs $CRATE/tests/seed_demo_$N.rs
+mkdir -p $CRATE/tests; cp $OUT/demo.rs $CRATE/tests/seed_demo_$N.rs
 cargo test -p $CRATE --offline "$@" --test seed_demo_$N >/tmp/seed_${P}_${N}.a 2>&1; A=$?
 git apply $OUT/patch.diff || { echo "patch does not apply"; exit 2; }
 cargo test -p $CRATE --offline "$@" --test seed_demo_$N >/tmp/seed_${P}_${N}.b 2>&1; B=$?
